@@ -75,6 +75,16 @@ def eval_prog(ld, st):
         return
     st.inc('transitions')
     exps, why = discovery.expected(ld)
+    shift = 0
+    if pr.route == 'wrapsdeco':
+        # one more level: the only-wrapping decorator (depth 0) forwards everything to the wrapper (depth 1)
+        shift = 1
+        from sigtools import _signatures as _S
+        own = _S.set_default_sources(inspect.signature(ld.w, follow_wrapped=False), ld.w)
+        try:
+            exps = [S.forwards(own, e) for e in exps]
+        except ValueError:
+            pass
 
     def viol(kind, detail, feat):
         d = {'program': discovery.show_prog(ld), 'reported': str(sig), 'sources': alg.src_show(sig)}
@@ -98,8 +108,10 @@ def eval_prog(ld, st):
         for g, v in depths.items():
             if discovery.fid(g) == discovery.fid(ld.w):
                 d0 = v
-    if d0 != 0:
-        viol('depth-chain', {'problem': 'the wrapper itself has depth %r, not 0' % (d0,)}, {})
+    if shift and depths.get(ld.w) != 0:
+        viol('depth-chain', {'problem': 'the only-wrapping decorator has depth %r, not 0' % (depths.get(ld.w),)}, {})
+    if d0 != shift and not (shift and d0 is None):
+        viol('depth-chain', {'problem': 'the wrapper itself has depth %r, not %d' % (d0, shift)}, {})
     if why == 'declared' and alg.params_key(sig) != alg.params_key(discovery.plain(ld)):
         st.seen('nontrivial', (pr.outer, pr.calls[0].callee, shape_of(sig)))
         for j, c in enumerate(ld.callees):
@@ -116,7 +128,7 @@ def eval_prog(ld, st):
                     viol('depth-chain', {'problem': 'callee %s is a source but has no depth' % label(c)}, {})
             elif d <= depths.get(f, 0):
                 viol('depth-chain', {'problem': 'callee %s has depth %r, not below the wrapper (%r)' % (label(c), d, depths.get(f))}, {})
-            elif d != 1:
+            elif d != 1 + shift:
                 viol('depth-chain', {'problem': 'callee %s is reached directly from the wrapper but has depth %r' % (label(c), d)}, {})
 
 
